@@ -15,6 +15,14 @@ use std::process::{Child, Command, Stdio};
 
 const VERIF: &str = "/verif";
 
+static STARTUP_CAPS: std::sync::Mutex<Vec<String>> = std::sync::Mutex::new(Vec::new());
+
+/// Register, before `main`, a limitation of this run that must appear in `caps_hit` (and makes the run
+/// non-exhaustive), e.g. "the library has an RNG call site that no seam owns".
+pub fn note_cap(msg: String) {
+    STARTUP_CAPS.lock().unwrap().push(msg);
+}
+
 struct Args {
     tier: Tier,
     seed: u64,
@@ -584,7 +592,7 @@ fn parent_main<H: Harness>(h: H, a: Args, plan: crate::Plan) -> i32 {
     let trans = transitions + e2_transitions;
     let distinct = digests.len() as u64 + extras.iter().map(|e| e.distinct_outcomes).sum::<u64>();
     let wall = t_start.elapsed().as_secs_f64();
-    let mut caps: Vec<String> = Vec::new();
+    let mut caps: Vec<String> = STARTUP_CAPS.lock().unwrap().clone();
     if !not_started.is_empty() {
         caps.push(format!("wall budget {} s reached: {} of {} jobs not started (first: {})", budget_s, not_started.len(), jobs.len(), not_started[0]));
     }
